@@ -130,6 +130,30 @@ def s_open(vc):
     vc.ensure("open_not_passed_upward", len(out.trace) == 0)
 
 
+@scenario("open_server_stream.direction", functions=[Q + ".open_server_stream"], extra_inline_roots=AIOQUIC)
+def s_open_state(vc):
+    """RFC 9000 §2.1: a unidirectional stream carries data only from its initiator to the peer. On the server connection
+    mitmproxy is the QUIC client, so the virtual server connection of a stream is writable-only for a client-initiated
+    unidirectional stream, readable-only for a server-initiated one, and fully open for bidirectional streams. (A wrong state
+    here makes end-of-stream / reset signals go back to the sender's own receive-only stream.)"""
+    from mitmproxy.connection import ConnectionState as S
+    cid = vc.sym_int("cid", lo=0)
+    sid = vc.sym_int("sid", lo=0)
+    raw, child, qc, qs, sc, ss, ids = mk_raw(vc, cid, None, S.OPEN, S.CLOSED)
+    out = vc.call(Q + ".open_server_stream", child, sid)
+    vc.ensure("no_exception", out.ok)
+    if not out.ok:
+        return
+    vc.ensure("server_stream_id_recorded", child._server_stream_id == sid)
+    uni = (sid // 2) % 2 == 1
+    client_initiated = sid % 2 == 0
+    st = ss.state
+    vc.ensure("bidi.open", Implies(Not(uni), vc.eq(st, S.OPEN)))
+    vc.ensure("uni.client_initiated.write_only", Implies(And(uni, client_initiated), vc.eq(st, S.CAN_WRITE)))
+    vc.ensure("uni.server_initiated.read_only", Implies(And(uni, Not(client_initiated)), vc.eq(st, S.CAN_READ)))
+    vc.ensure("server_connection_started", not isnone(ss.timestamp_start))
+
+
 def _cls(ref):
     from pyvc.vc import resolve_ref
     return resolve_ref(ref)[2]
@@ -186,6 +210,11 @@ def bounded(tier, seed):
                     finished.add((from_client, sid))
                 other = ctx.server if from_client else ctx.client
                 for c in d.log[mark:]:
+                    if isinstance(c, (QC.SendQuicStreamData, QC.ResetQuicStream)) and stream_is_unidirectional(c.stream_id):
+                        # we may only send on a unidirectional stream that our side of that connection initiated
+                        ours = (not stream_is_client_initiated(c.stream_id)) if c.connection is ctx.client else stream_is_client_initiated(c.stream_id)
+                        if not ours:
+                            b.fail("quic.no_send_on_receive_only_stream", inp, f"{c!r}")
                     if isinstance(c, (QC.SendQuicStreamData, QC.ResetQuicStream)):
                         if stream_is_unidirectional(c.stream_id) != stream_is_unidirectional(sid):
                             b.fail("quic.same_directionality", inp, f"{c!r} for event on {sid}")
